@@ -242,20 +242,23 @@ Section Direct.
     | _ => None
     end.
 
+  (* Select = map, Where = filter by truthiness, SelectMany = concat-map *)
+  Definition run_op (op : opkind) (f : value -> option value) (l : list value) : option (list value) :=
+    match op with
+    | OpSelect => map_opt f l
+    | OpWhere => filter_opt (fun v => match f v with Some r => Some (truthy r) | None => None end) l
+    | OpSelectMany =>
+        match map_opt (fun v => match f v with Some r => seq_items r | None => None end) l with
+        | Some ls => Some (concat ls)
+        | None => None
+        end
+    | _ => None
+    end.
+
   Definition run_stage (s : stage) (l : list value) : option (list value) :=
     match stage_fun s with
     | None => None
-    | Some f =>
-        match st_op s with
-        | OpSelect => map_opt f l
-        | OpWhere => filter_opt (fun v => match f v with Some r => Some (truthy r) | None => None end) l
-        | OpSelectMany =>
-            match map_opt (fun v => match f v with Some r => seq_items r | None => None end) l with
-            | Some ls => Some (concat ls)
-            | None => None
-            end
-        | _ => None
-        end
+    | Some f => run_op (st_op s) f l
     end.
 
   Fixpoint direct (ch : chain) (l : list value) : option (list value) :=
